@@ -1,7 +1,7 @@
 /-
 Lemmas for C14 about the kernel loop of Model/Proc.lean: the global call log is a concatenation of
-complete brackets (invariant of every kernel operation), and what an event pushed is scheduled in
-the order it was pushed.
+complete brackets (invariant of every kernel operation, through shutdowns and restarts), and what
+an event pushed is scheduled in the order it was pushed.
 -/
 import Desverif.Proofs.ProcBracket
 namespace Proc
@@ -9,7 +9,7 @@ namespace Proc
 /-- the `incoming` behaviours of a module's stack -/
 def ModRt.acts (m : ModRt) : List (Nat → Act) := m.elems.map (·.spec.act)
 
-/-- the log drawn by a sequence of events `(module, time, kind)` on stacks `A` -/
+/-- the log drawn by a sequence of brackets `(module, time, kind)` on stacks `A` -/
 def bracketLog (A : List (List (Nat → Act))) (brs : List (Nat × Nat × Kind)) : List Entry :=
   brs.flatMap fun b => shape b.1 b.2.1 (A[b.1]?.getD []) b.2.2
 
@@ -48,9 +48,132 @@ theorem set_self {α : Type} (l : List α) (i : Nat) (a : α) (h : l[i]? = some 
     | zero => simp at h; simp [h]
     | succ i => simp at h; simp [ih i h]
 
+/-- replacing a module by one with the same stack behaviours keeps the table of behaviours -/
+theorem set_acts_inv {A : List (List (Nat → Act))} {l : List ModRt} (h : l.map ModRt.acts = A)
+    {mi : Nat} {a : List (Nat → Act)} (hA : A[mi]? = some a) (m' : ModRt) (hm : m'.acts = a) :
+    (l.set mi m').map ModRt.acts = A := by
+  rw [List.map_set, hm, h]
+  exact set_self A mi a hA
+
+theorem lt_of_getElem?_some {α : Type} {l : List α} {i : Nat} {a : α} (h : l[i]? = some a) :
+    i < l.length := by
+  rcases Nat.lt_or_ge i l.length with h1 | h1
+  · exact h1
+  · rw [List.getElem?_eq_none h1] at h; simp at h
+
+/-! ### the log and the static part of the event functions -/
+
+theorem bracket_log (c : Ctx) (m : ModRt) (kind : Kind) (woken : Sleepers) :
+    (bracket c m kind woken).2.filterMap Item.entry? = shape c.mod c.now m.acts kind := by
+  rw [bracket_items, traceShape_entries]; rfl
+
+theorem bracket_acts' (c : Ctx) (m : ModRt) (kind : Kind) (woken : Sleepers) :
+    (bracket c m kind woken).1.acts = m.acts := bracket_acts c m kind woken
+
+theorem activate_acts (c : Ctx) (m : ModRt) : (activate c m).1.acts = m.acts := rfl
+
+theorem activate_active (c : Ctx) (m : ModRt) : (activate c m).1.active = m.active := rfl
+
+theorem deactivate_elems (m : ModRt) : (deactivate m).1.elems = m.elems ∧
+    (deactivate m).1.active = m.active := by
+  unfold deactivate
+  split
+  · split
+    · split <;> exact ⟨rfl, rfl⟩
+    · exact ⟨rfl, rfl⟩
+  · exact ⟨rfl, rfl⟩
+
+theorem deactivate_acts (m : ModRt) : (deactivate m).1.acts = m.acts := by
+  simp only [ModRt.acts, (deactivate_elems m).1]
+
 theorem runEvent_log (c : Ctx) (m : ModRt) (kind : Kind) :
     (runEvent c m kind).log = shape c.mod c.now m.acts kind := by
-  rw [EventResult.log, runEvent_items, traceShape_entries]; rfl
+  simp only [EventResult.log, runEvent, bracket_log]; rfl
+
+theorem runEvent_acts' (c : Ctx) (m : ModRt) (kind : Kind) : (runEvent c m kind).mod.acts = m.acts := by
+  simp only [runEvent, deactivate_acts, bracket_acts', activate_acts]
+
+theorem idleEvent_acts (c : Ctx) (m : ModRt) : (idleEvent c m).mod.acts = m.acts := by
+  simp only [idleEvent, deactivate_acts, activate_acts]
+
+theorem idleEvent_active (c : Ctx) (m : ModRt) : (idleEvent c m).mod.active = m.active := by
+  simp only [idleEvent, (deactivate_elems _).2, activate_active]
+
+theorem restartStages_spec (c : Ctx) (ks : List Nat) : ∀ (m : ModRt) (woken : Sleepers),
+    (restartStages c ks m woken).2.filterMap Item.entry? =
+        ks.flatMap (fun k => shape c.mod c.now m.acts (.simStart k)) ∧
+    (restartStages c ks m woken).1.acts = m.acts := by
+  induction ks with
+  | nil => intro m w; constructor <;> rfl
+  | cons k ks ih =>
+    intro m w
+    obtain ⟨h1, h2⟩ := ih (bracket c m (.simStart k) w).1 []
+    simp only [restartStages, List.filterMap_append, bracket_log, h1, h2, bracket_acts',
+      List.flatMap_cons]
+    constructor <;> (first | rfl | trivial)
+
+theorem restartEvent_log (c : Ctx) (m : ModRt) :
+    (restartEvent c m).log =
+      (List.range m.handler.stages).flatMap (fun k => shape c.mod c.now m.acts (.simStart k)) := by
+  simp only [EventResult.log, restartEvent]
+  exact (restartStages_spec c _ _ _).1
+
+theorem restartEvent_acts (c : Ctx) (m : ModRt) : (restartEvent c m).mod.acts = m.acts := by
+  simp only [restartEvent, deactivate_acts]
+  exact (restartStages_spec c _ _ _).2
+
+/-! ### the invariant through every kernel operation -/
+
+theorem applyShutdown_inv {A : List (List (Nat → Act))} {s : Sim} (h : SimInv A s) {mi : Nat}
+    {a : List (Nat → Act)} (hA : A[mi]? = some a) (m : ModRt) (hm : m.acts = a)
+    (req : Option (Option Nat)) : SimInv A (s.applyShutdown mi m req) := by
+  unfold Sim.applyShutdown
+  cases req with
+  | none => exact h
+  | some restart =>
+    have h1 : SimInv A { s with mods := s.mods.set mi { m with active := false, sleepers := [] } } :=
+      ⟨set_acts_inv h.acts hA _ hm, h.log⟩
+    cases restart with
+    | none => exact h1
+    | some t => exact schedule_inv h1 _ _
+
+theorem finish_inv {A : List (List (Nat → Act))} {s : Sim} (h : SimInv A s) {mi : Nat}
+    {a : List (Nat → Act)} (hA : A[mi]? = some a) (r : EventResult) (hr : r.mod.acts = a)
+    (brs' : List (Nat × Nat × Kind)) (hlog : r.log = bracketLog A brs')
+    (hlt : ∀ b ∈ brs', b.1 < A.length) (flush : Bool) : SimInv A (s.finish mi r flush) := by
+  unfold Sim.finish
+  have h1 : SimInv A { s with
+      mods := s.mods.set mi r.mod
+      downs := s.downs ++ (downMarks r.items s.log.length).map (fun d => (d.1, mi, d.2))
+      log := s.log ++ r.log
+      fault := match s.fault with
+        | some f => some f
+        | none => r.fault } := by
+    constructor
+    · exact set_acts_inv h.acts hA _ hr
+    · obtain ⟨brs, hb, hl⟩ := h.log
+      refine ⟨brs ++ brs', ?_, ?_⟩
+      · show s.log ++ r.log = _
+        rw [bracketLog_append, hb, hlog]
+      · intro b hb'
+        simp only [List.mem_append] at hb'
+        rcases hb' with hb' | hb'
+        · exact hl b hb'
+        · exact hlt b hb'
+  simp only
+  have h2 : ∀ s1 : Sim, SimInv A s1 → SimInv A (match r.wake with
+      | some t => s1.schedule (.wakeup mi) t
+      | none => s1) := by
+    intro s1 hs1
+    cases r.wake with
+    | none => exact hs1
+    | some t => exact schedule_inv hs1 _ _
+  cases flush with
+  | false => exact h2 _ h1
+  | true =>
+    simp only [if_true]
+    apply applyShutdown_inv _ hA _ hr
+    exact foldl_inv (SimInv A) _ (fun s p hs => schedule_inv hs p.1 p.2) _ _ (h2 _ h1)
 
 theorem moduleEvent_inv {A : List (List (Nat → Act))} {s : Sim} (h : SimInv A s) (mi : Nat)
     (kind : Kind) (flush : Bool) : SimInv A (s.moduleEvent mi kind flush) := by
@@ -60,41 +183,38 @@ theorem moduleEvent_inv {A : List (List (Nat → Act))} {s : Sim} (h : SimInv A 
   | some m =>
     simp only
     have hA : A[mi]? = some m.acts := by rw [← h.acts, List.getElem?_map, hm]; rfl
-    have hlt : mi < A.length := by
-      rcases Nat.lt_or_ge mi A.length with h1 | h1
-      · exact h1
-      · rw [List.getElem?_eq_none h1] at hA; simp at hA
-    -- the state after the event itself
-    have h1 : SimInv A { s with mods := s.mods.set mi (runEvent ⟨mi, s.fes.cur⟩ m kind).mod,
-                                 log := s.log ++ (runEvent ⟨mi, s.fes.cur⟩ m kind).log } := by
-      constructor
-      · show (s.mods.set mi _).map ModRt.acts = A
-        rw [List.map_set]
-        have : ModRt.acts (runEvent ⟨mi, s.fes.cur⟩ m kind).mod = m.acts := runEvent_acts _ m kind
-        rw [this, h.acts]
-        exact set_self A mi m.acts hA
-      · obtain ⟨brs, hb, hlt'⟩ := h.log
-        refine ⟨brs ++ [(mi, s.fes.cur, kind)], ?_, ?_⟩
-        · show s.log ++ _ = _
-          rw [bracketLog_append, hb, runEvent_log]
-          simp [bracketLog, hA]
-        · intro b hb'
-          simp only [List.mem_append, List.mem_singleton] at hb'
-          rcases hb' with hb' | hb'
-          · exact hlt' b hb'
-          · subst hb'; exact hlt
-    have h2 : SimInv A (match (runEvent ⟨mi, s.fes.cur⟩ m kind).wake with
-        | some t => Sim.schedule { s with mods := s.mods.set mi (runEvent ⟨mi, s.fes.cur⟩ m kind).mod,
-                                          log := s.log ++ (runEvent ⟨mi, s.fes.cur⟩ m kind).log } (.wakeup mi) t
-        | none => { s with mods := s.mods.set mi (runEvent ⟨mi, s.fes.cur⟩ m kind).mod,
-                           log := s.log ++ (runEvent ⟨mi, s.fes.cur⟩ m kind).log }) := by
-      cases (runEvent ⟨mi, s.fes.cur⟩ m kind).wake with
-      | none => exact h1
-      | some t => exact schedule_inv h1 _ _
-    cases flush with
-    | false => exact h2
-    | true =>
-      exact foldl_inv (SimInv A) _ (fun s p hs => schedule_inv hs p.1 p.2) _ _ h2
+    have hlt : mi < A.length := lt_of_getElem?_some hA
+    split
+    · exact finish_inv h hA _ (idleEvent_acts _ m) [] rfl (by simp) flush
+    · refine finish_inv h hA _ (runEvent_acts' _ m kind) [(mi, s.fes.cur, kind)] ?_ ?_ flush
+      · rw [runEvent_log]; simp [bracketLog, hA]
+      · intro b hb; simp only [List.mem_singleton] at hb; subst hb; exact hlt
+
+theorem restart_inv {A : List (List (Nat → Act))} {s : Sim} (h : SimInv A s) (mi : Nat) :
+    SimInv A (s.restart mi) := by
+  unfold Sim.restart
+  cases hm : s.mods[mi]? with
+  | none => exact h.of_eq rfl rfl
+  | some m =>
+    simp only
+    have hA : A[mi]? = some m.acts := by rw [← h.acts, List.getElem?_map, hm]; rfl
+    have hlt : mi < A.length := lt_of_getElem?_some hA
+    refine finish_inv h hA _ (restartEvent_acts _ m)
+      ((List.range m.handler.stages).map fun k => (mi, s.fes.cur, Kind.simStart k)) ?_ ?_ true
+    · rw [restartEvent_log]; simp [bracketLog, List.flatMap_map, hA]
+    · intro b hb
+      simp only [List.mem_map] at hb
+      obtain ⟨_, _, rfl⟩ := hb
+      exact hlt
+
+theorem exitConn_inv {A : List (List (Nat → Act))} {s : Sim} (h : SimInv A s) (src dst id : Nat) :
+    SimInv A (s.exitConn src dst id) := by
+  unfold Sim.exitConn
+  split
+  · exact h.of_eq rfl rfl
+  · split
+    · exact schedule_inv h _ _
+    · exact h
 
 theorem step_inv {A : List (List (Nat → Act))} {s s' : Sim} (h : SimInv A s) (hs : s.step = some s') :
     SimInv A s' := by
@@ -108,7 +228,8 @@ theorem step_inv {A : List (List (Nat → Act))} {s s' : Sim} (h : SimInv A s) (
     · simp only [Option.some.injEq] at hs; subst hs; exact h0.of_eq rfl rfl
     · simp only [Option.some.injEq] at hs; subst hs; exact moduleEvent_inv h0 _ _ _
     · simp only [Option.some.injEq] at hs; subst hs; exact moduleEvent_inv h0 _ _ _
-    · simp only [Option.some.injEq] at hs; subst hs; exact schedule_inv h0 _ _
+    · simp only [Option.some.injEq] at hs; subst hs; exact restart_inv h0 _
+    · simp only [Option.some.injEq] at hs; subst hs; exact exitConn_inv h0 _ _ _
 
 theorem loop_inv {A : List (List (Nat → Act))} (n : Nat) : ∀ {s : Sim}, SimInv A s → SimInv A (Sim.loop n s) := by
   induction n with
@@ -157,6 +278,186 @@ theorem run_inv (fuel : Nat) (cfg : Config) : SimInv (cfg.mods.map ModRt.acts) (
   · exact h
   · exact simEnd_inv h
 
+/-! ### a module that is shut down -/
+
+/-- module `mi` exists and is shut down -/
+def Sim.inactive (s : Sim) (mi : Nat) : Prop := ∃ m, s.mods[mi]? = some m ∧ m.active = false
+
+/-- the calls logged for module `mi` -/
+def Sim.modLog (s : Sim) (mi : Nat) : List Entry := s.log.filter (fun e => e.mod == mi)
+
+theorem foldl_schedule_mods (l : List (KEvent × Nat)) : ∀ s : Sim,
+    (l.foldl (fun s p => s.schedule p.1 p.2) s).mods = s.mods ∧
+    (l.foldl (fun s p => s.schedule p.1 p.2) s).log = s.log := by
+  induction l with
+  | nil => intro s; exact ⟨rfl, rfl⟩
+  | cons p l ih =>
+    intro s
+    simp only [List.foldl_cons]
+    obtain ⟨h1, h2⟩ := ih (s.schedule p.1 p.2)
+    exact ⟨by rw [h1, schedule_mods], by rw [h2, schedule_log]⟩
+
+theorem applyShutdown_log (s : Sim) (mi : Nat) (m : ModRt) (req : Option (Option Nat)) :
+    (s.applyShutdown mi m req).log = s.log := by
+  unfold Sim.applyShutdown
+  cases req with
+  | none => rfl
+  | some r => cases r with
+    | none => rfl
+    | some t => simp only [schedule_log]
+
+theorem applyShutdown_other (s : Sim) (mj : Nat) (m : ModRt) (req : Option (Option Nat)) (mi : Nat)
+    (hne : mj ≠ mi) : (s.applyShutdown mj m req).mods[mi]? = s.mods[mi]? := by
+  unfold Sim.applyShutdown
+  cases req with
+  | none => rfl
+  | some r => cases r with
+    | none => simp [List.getElem?_set_ne hne]
+    | some t => simp [schedule_mods, List.getElem?_set_ne hne]
+
+/-- the log and the modules after `finish`, before the shutdown part -/
+theorem finish_log (s : Sim) (mj : Nat) (r : EventResult) (flush : Bool) :
+    (s.finish mj r flush).log = s.log ++ r.log := by
+  unfold Sim.finish
+  simp only
+  cases flush with
+  | false => cases r.wake <;> simp [schedule_log]
+  | true =>
+    simp only [if_true, applyShutdown_log, (foldl_schedule_mods _ _).2]
+    cases r.wake <;> simp [schedule_log]
+
+theorem finish_other (s : Sim) (mj : Nat) (r : EventResult) (flush : Bool) (mi : Nat) (hne : mj ≠ mi) :
+    (s.finish mj r flush).mods[mi]? = s.mods[mi]? := by
+  unfold Sim.finish
+  simp only
+  cases flush with
+  | false => cases r.wake <;> simp [schedule_mods, List.getElem?_set_ne hne]
+  | true =>
+    simp only [if_true, applyShutdown_other _ _ _ _ _ hne, (foldl_schedule_mods _ _).1]
+    cases r.wake <;> simp [schedule_mods, List.getElem?_set_ne hne]
+
+theorem filter_mod_nil (l : List Entry) (mj mi : Nat) (hne : mj ≠ mi) (h : ∀ e ∈ l, e.mod = mj) :
+    l.filter (fun e => e.mod == mi) = [] := by
+  rw [List.filter_eq_nil_iff]
+  intro e he
+  rw [h e he]
+  simp [hne]
+
+theorem shape_mod (mi t : Nat) (acts : List (Nat → Act)) (kind : Kind) :
+    ∀ e ∈ shape mi t acts kind, e.mod = mi ∧ e.time = t := by
+  intro e he
+  rcases mem_shape he with ⟨i, _, h | ⟨_, _, h⟩ | h⟩ | h
+  · subst h; exact ⟨rfl, rfl⟩
+  · subst h; exact ⟨rfl, rfl⟩
+  · subst h; exact ⟨rfl, rfl⟩
+  · exact (handlerEntries_who h).2
+
+/-- an event of another module leaves module `mi` and its part of the log alone -/
+theorem moduleEvent_other (s : Sim) (mj : Nat) (kind : Kind) (flush : Bool) (mi : Nat) (hne : mj ≠ mi) :
+    (s.moduleEvent mj kind flush).mods[mi]? = s.mods[mi]? ∧
+    (s.moduleEvent mj kind flush).modLog mi = s.modLog mi := by
+  unfold Sim.moduleEvent
+  cases hm : s.mods[mj]? with
+  | none => exact ⟨rfl, rfl⟩
+  | some m =>
+    simp only
+    refine ⟨finish_other _ _ _ _ _ hne, ?_⟩
+    simp only [Sim.modLog, finish_log, List.filter_append]
+    split
+    · have : (idleEvent ⟨mj, s.fes.cur⟩ m).log = [] := rfl
+      rw [this]; simp
+    · rw [runEvent_log, filter_mod_nil _ mj mi hne (fun e he => (shape_mod _ _ _ _ e he).1)]
+      simp
+
+theorem restart_other (s : Sim) (mj : Nat) (mi : Nat) (hne : mj ≠ mi) :
+    (s.restart mj).mods[mi]? = s.mods[mi]? ∧ (s.restart mj).modLog mi = s.modLog mi := by
+  unfold Sim.restart
+  cases hm : s.mods[mj]? with
+  | none => exact ⟨rfl, rfl⟩
+  | some m =>
+    simp only
+    refine ⟨finish_other _ _ _ _ _ hne, ?_⟩
+    simp only [Sim.modLog, finish_log, List.filter_append, restartEvent_log]
+    have hnil := filter_mod_nil
+      ((List.range m.handler.stages).flatMap (fun k => shape mj s.fes.cur m.acts (.simStart k)))
+      mj mi hne (by
+        intro e he
+        rw [List.mem_flatMap] at he
+        obtain ⟨k, _, hk⟩ := he
+        exact (shape_mod _ _ _ _ e hk).1)
+    rw [hnil, List.append_nil]
+
+/-- a message or a wake-up for a module that is shut down: nothing is logged, it stays shut down -/
+theorem moduleEvent_inactive (s : Sim) (mi : Nat) (kind : Kind) (flush : Bool)
+    (hin : s.inactive mi) (hk : kind.needsActive = true) :
+    (s.moduleEvent mi kind flush).inactive mi ∧ (s.moduleEvent mi kind flush).log = s.log := by
+  obtain ⟨m, hm, hact⟩ := hin
+  have hlt : mi < s.mods.length := lt_of_getElem?_some hm
+  unfold Sim.moduleEvent
+  rw [hm]
+  simp only [hk, hact, Bool.not_false, Bool.and_self, if_true]
+  have hitems : (idleEvent ⟨mi, s.fes.cur⟩ m).items = [] := rfl
+  constructor
+  · refine ⟨(idleEvent ⟨mi, s.fes.cur⟩ m).mod, ?_, by rw [idleEvent_active]; exact hact⟩
+    unfold Sim.finish
+    simp only [EventResult.pushes, EventResult.shutdown, hitems, List.filterMap_nil, List.foldl_nil,
+      List.getLast?_nil, Sim.applyShutdown]
+    cases flush <;> cases (idleEvent ⟨mi, s.fes.cur⟩ m).wake <;>
+      simp [schedule_mods, List.getElem?_set_self hlt]
+  · rw [finish_log]
+    simp [EventResult.log, hitems]
+
+/-- the event that `step` dispatches next -/
+def Sim.peek? (s : Sim) : Option KEvent :=
+  match FES.fetch s.fes with
+  | .error _ => none
+  | .ok (e, _) => s.evs[e.val]?
+
+/-- **until its restart event is dispatched, a module that is shut down stays shut down and no
+    hook of any of its elements, nor its handler, is called** — whatever is dispatched -/
+theorem step_inactive (s s' : Sim) (mi : Nat) (hs : s.step = some s') (hin : s.inactive mi)
+    (hne : s.peek? ≠ some (.restart mi)) : s'.inactive mi ∧ s'.modLog mi = s.modLog mi := by
+  unfold Sim.step at hs
+  unfold Sim.peek? at hne
+  split at hs
+  · simp at hs
+  · rename_i e f hf
+    rw [hf] at hne
+    simp only at hs hne
+    have hin0 : Sim.inactive { s with fes := f } mi := hin
+    split at hs
+    · simp only [Option.some.injEq] at hs; subst hs; exact ⟨hin, rfl⟩
+    · rename_i mj id hev
+      simp only [Option.some.injEq] at hs; subst hs
+      by_cases hj : mj = mi
+      · subst hj
+        obtain ⟨h1, h2⟩ := moduleEvent_inactive _ mj (.message id) true hin0 rfl
+        exact ⟨h1, by simp only [Sim.modLog, h2]⟩
+      · obtain ⟨h1, h2⟩ := moduleEvent_other { s with fes := f } mj (.message id) true mi hj
+        exact ⟨by obtain ⟨m, hm, ha⟩ := hin0; exact ⟨m, by rw [h1]; exact hm, ha⟩, h2⟩
+    · rename_i mj hev
+      simp only [Option.some.injEq] at hs; subst hs
+      by_cases hj : mj = mi
+      · subst hj
+        obtain ⟨h1, h2⟩ := moduleEvent_inactive _ mj .wakeup true hin0 rfl
+        exact ⟨h1, by simp only [Sim.modLog, h2]⟩
+      · obtain ⟨h1, h2⟩ := moduleEvent_other { s with fes := f } mj .wakeup true mi hj
+        exact ⟨by obtain ⟨m, hm, ha⟩ := hin0; exact ⟨m, by rw [h1]; exact hm, ha⟩, h2⟩
+    · rename_i mj hev
+      simp only [Option.some.injEq] at hs; subst hs
+      have hj : mj ≠ mi := by
+        intro h; subst h; exact hne hev
+      obtain ⟨h1, h2⟩ := restart_other { s with fes := f } mj mi hj
+      exact ⟨by obtain ⟨m, hm, ha⟩ := hin0; exact ⟨m, by rw [h1]; exact hm, ha⟩, h2⟩
+    · simp only [Option.some.injEq] at hs; subst hs
+      unfold Sim.exitConn
+      split
+      · exact ⟨hin, rfl⟩
+      · split
+        · exact ⟨by obtain ⟨m, hm, ha⟩ := hin0; exact ⟨m, by rw [schedule_mods]; exact hm, ha⟩,
+            by simp only [Sim.modLog, schedule_log]⟩
+        · exact ⟨hin, rfl⟩
+
 /-! ### what an event pushed is scheduled in the order it was pushed -/
 
 theorem schedule_fault_sticky (s : Sim) (ev : KEvent) (t : Nat) (h : (s.schedule ev t).fault = none) :
@@ -181,13 +482,55 @@ theorem foldl_schedule_evs (l : List (KEvent × Nat)) : ∀ (s : Sim),
     rw [h2, h4]
     simp
 
-/-! ### the pushes of one event, by stack index -/
+/-- the restart event a shutdown request leads to -/
+def restartOf (mi : Nat) : Option (Option Nat) → List KEvent
+  | some (some _) => [.restart mi]
+  | _ => []
+
+theorem applyShutdown_evs (s : Sim) (mi : Nat) (m : ModRt) (req : Option (Option Nat))
+    (h : (s.applyShutdown mi m req).fault = none) :
+    s.fault = none ∧ (s.applyShutdown mi m req).evs.toList = s.evs.toList ++ restartOf mi req := by
+  unfold Sim.applyShutdown at h ⊢
+  cases req with
+  | none => exact ⟨h, by simp [restartOf]⟩
+  | some r =>
+    cases r with
+    | none => exact ⟨h, by simp [restartOf]⟩
+    | some t =>
+      simp only at h ⊢
+      obtain ⟨h1, h2⟩ := schedule_fault_sticky _ _ _ h
+      exact ⟨h1, by rw [h2]; simp [restartOf]⟩
+
+/-- `deactivate` + `buf_process`: wake-up, then the pushes in push order, then the restart event -/
+theorem finish_evs (s : Sim) (mi : Nat) (r : EventResult) (h : (s.finish mi r true).fault = none) :
+    (s.finish mi r true).evs.toList =
+      s.evs.toList ++ (r.wake.map fun _ => KEvent.wakeup mi).toList ++ r.pushes.map (·.1)
+        ++ restartOf mi r.shutdown := by
+  unfold Sim.finish at h ⊢
+  simp only [if_true] at h ⊢
+  obtain ⟨h1, h2⟩ := applyShutdown_evs _ _ _ _ h
+  obtain ⟨h3, h4⟩ := foldl_schedule_evs _ _ h1
+  rw [h2, h4]
+  congr 2
+  cases hw : r.wake with
+  | none => simp
+  | some t =>
+    rw [hw] at h3
+    simp only at h3
+    obtain ⟨_, h5⟩ := schedule_fault_sticky _ _ _ h3
+    simp [h5]
+
+/-! ### the pushes of one bracket, by stack index -/
 
 /-- the buffered kernel event of a send (`Emit.toItem` without the wrapper) -/
 def Emit.event (c : Ctx) (e : Emit) : KEvent × Nat :=
   if e.send && e.dst != c.mod then
-    if e.delay = 0 then (.deliver e.dst e.id, c.now) else (.exitConn e.dst e.id, c.now + e.delay)
+    if e.delay = 0 then (.deliver e.dst e.id, c.now) else (.exitConn c.mod e.dst e.id, c.now + e.delay)
   else (.deliver c.mod e.id, c.now + e.delay)
+
+def Action.event (c : Ctx) : Action → Option (KEvent × Nat)
+  | .send e => some (e.event c)
+  | .shutdown _ => none
 
 theorem push_call (e : Entry) : (Item.call e).push? = none := rfl
 
@@ -197,17 +540,24 @@ theorem toItem_push (c : Ctx) (e : Emit) : (e.toItem c).push? = some (e.event c)
   · split <;> rfl
   · rfl
 
-theorem emits_pushes (c : Ctx) (l : List Emit) :
-    (l.map (Emit.toItem c)).filterMap Item.push? = l.map (Emit.event c) := by
+theorem action_push (c : Ctx) (a : Action) : (a.toItem c).push? = a.event c := by
+  cases a with
+  | send e => exact toItem_push c e
+  | shutdown r => rfl
+
+theorem emits_pushes (c : Ctx) (l : List Action) :
+    (l.map (Action.toItem c)).filterMap Item.push? = l.filterMap (Action.event c) := by
   induction l with
   | nil => rfl
-  | cons e l ih => simp [toItem_push, ih]
+  | cons e l ih =>
+    simp only [List.map_cons, List.filterMap_cons, action_push, ih]
 
 /-- direct sends of a handler callback -/
 def hNowEvents (c : Ctx) : List HEmit → List (KEvent × Nat)
   | [] => []
   | .now e :: r => e.event c :: hNowEvents c r
   | .task .. :: r => hNowEvents c r
+  | .shutdown _ :: r => hNowEvents c r
 
 theorem hNow_pushes (c : Ctx) (l : List HEmit) : (hNow c l).filterMap Item.push? = hNowEvents c l := by
   induction l with
@@ -216,17 +566,20 @@ theorem hNow_pushes (c : Ctx) (l : List HEmit) : (hNow c l).filterMap Item.push?
     cases h with
     | now e => simp [hNow, hNowEvents, toItem_push, ih]
     | task x e => simpa [hNow, hNowEvents] using ih
+    | shutdown r =>
+      have h : (Item.down (r.map (c.now + ·))).push? = none := rfl
+      simp only [hNow, hNowEvents, List.filterMap_cons, h, ih]
 
 /-- what the handler callback of the event pushes -/
-def handlerPushes (c : Ctx) (h : Handler) (kind : Kind) (out : Option Nat) : List (KEvent × Nat) :=
-  match handlerCall c h kind out with
+def handlerPushes (c : Ctx) (m : ModRt) (kind : Kind) (out : Option Nat) : List (KEvent × Nat) :=
+  match handlerCall c m kind out with
   | some (_, hs) => hNowEvents c hs
   | none => []
 
-theorem handlerItems_pushes (c : Ctx) (h : Handler) (kind : Kind) (out : Option Nat) :
-    (handlerItems c h kind out).filterMap Item.push? = handlerPushes c h kind out := by
+theorem handlerItems_pushes (c : Ctx) (m : ModRt) (kind : Kind) (out : Option Nat) :
+    (handlerItems c m kind out).filterMap Item.push? = handlerPushes c m kind out := by
   unfold handlerItems handlerPushes
-  cases handlerCall c h kind out with
+  cases handlerCall c m kind out with
   | none => rfl
   | some p => simp only [List.filterMap_cons, push_call, hNow_pushes]
 
@@ -235,15 +588,15 @@ theorem handlerItems_pushes (c : Ctx) (h : Handler) (kind : Kind) (out : Option 
 def upPushesAt (c : Ctx) (es : List ElemRt) (m0 : Option Nat) (i : Nat) : List (KEvent × Nat) :=
   match es[i]? with
   | none => []
-  | some e => (e.spec.onStart e.starts).map (Emit.event c) ++
+  | some e => (e.spec.onStart e.starts).filterMap (Action.event c) ++
       (match msgAt (es.map (·.spec.act)) m0 i with
-       | some id => (e.spec.onInc id).map (Emit.event c)
+       | some id => (e.spec.onInc id e.incs).filterMap (Action.event c)
        | none => [])
 
 def endPushesAt (c : Ctx) (es : List ElemRt) (i : Nat) : List (KEvent × Nat) :=
   match es[i]? with
   | none => []
-  | some e => (e.spec.onEnd e.ends).map (Emit.event c)
+  | some e => (e.spec.onEnd e.ends).filterMap (Action.event c)
 
 theorem upItemsAt_pushes (c : Ctx) (es : List ElemRt) (m0 : Option Nat) (j : Nat) :
     (upItemsAt c es m0 j).filterMap Item.push? = upPushesAt c es m0 j := by
@@ -272,16 +625,16 @@ theorem sleepers_pushes (c : Ctx) (l : Sleepers) :
   | nil => rfl
   | cons e l ih => simp [toItem_push, ih]
 
-/-- the pushes of one event, in program order -/
-def pushShape (c : Ctx) (m : ModRt) (kind : Kind) : List (KEvent × Nat) :=
+/-- the pushes of one bracket, in program order -/
+def pushShape (c : Ctx) (m : ModRt) (kind : Kind) (woken : Sleepers) : List (KEvent × Nat) :=
   (List.range m.elems.length).flatMap (upPushesAt c m.elems kind.msg?)
-    ++ handlerPushes c m.handler kind (msgAt m.acts kind.msg? m.elems.length)
-    ++ (m.sleepers.takeWhile (fun s => s.1 ≤ c.now)).map (fun s => s.2.event c)
+    ++ handlerPushes c m kind (msgAt m.acts kind.msg? m.elems.length)
+    ++ woken.map (fun s => s.2.event c)
     ++ (List.range m.elems.length).reverse.flatMap (endPushesAt c m.elems)
 
-theorem runEvent_pushes (c : Ctx) (m : ModRt) (kind : Kind) :
-    (runEvent c m kind).pushes = pushShape c m kind := by
-  rw [EventResult.pushes, runEvent_items]
+theorem bracket_pushes (c : Ctx) (m : ModRt) (kind : Kind) (woken : Sleepers) :
+    (bracket c m kind woken).2.filterMap Item.push? = pushShape c m kind woken := by
+  rw [bracket_items]
   simp only [traceShape, pushShape, List.filterMap_append, filterMap_flatMap, handlerItems_pushes,
     sleepers_pushes, ModRt.acts]
   congr 1
@@ -289,5 +642,10 @@ theorem runEvent_pushes (c : Ctx) (m : ModRt) (kind : Kind) :
     congr 1
     exact flatMap_congr' (fun j _ => upItemsAt_pushes c m.elems kind.msg? j)
   · exact flatMap_congr' (fun j _ => endItemsAt_pushes c m.elems j)
+
+theorem runEvent_pushes (c : Ctx) (m : ModRt) (kind : Kind) :
+    (runEvent c m kind).pushes = pushShape c m kind (dueTasks c m) := by
+  simp only [EventResult.pushes, runEvent, bracket_pushes]
+  rfl
 
 end Proc
